@@ -52,6 +52,8 @@ type Reply struct {
 type Script func(plugin, rpc, token string) *Reply
 
 type H1 struct {
+	// NoSyncHandler: plugins (by name) to be created without a Synchronize handler
+	NoSyncHandler map[string]bool
 	// ClientStatus: messages of the error statuses the runtime's ttRPC clients received in replies
 	ClientStatus []string
 	E            *Env
@@ -278,13 +280,24 @@ func (h *H1) AddPluginAs(name, regName, idx string, mask api.EventMask) *Plug {
 		h.mu.Unlock()
 		return c, nil
 	}
-	st, err := stub.New(p, stub.WithPluginName(regName), stub.WithPluginIdx(idx), stub.WithConnection(p.Conn), stub.WithDialer(redial),
+	var impl any = p
+	if h.NoSyncHandler != nil && h.NoSyncHandler[name] {
+		impl = plugNoSync{Plug: p} // the same plugin without a Synchronize handler
+	}
+	st, err := stub.New(impl, stub.WithPluginName(regName), stub.WithPluginIdx(idx), stub.WithConnection(p.Conn), stub.WithDialer(redial),
 		stub.WithOnClose(func() { h.mu.Lock(); p.Closed++; h.mu.Unlock() }))
 	if err != nil {
 		panic(err)
 	}
 	p.Stub = st
 	return p
+}
+
+// plugNoSync is a Plug without a Synchronize handler: the field shadows the promoted method, so the
+// stub finds every handler but that one (and answers synchronization itself, without its lock).
+type plugNoSync struct {
+	*Plug
+	Synchronize struct{}
 }
 
 // AddCustomPlugin is AddPlugin for an arbitrary plugin implementation (e.g. one without a
